@@ -71,7 +71,7 @@ type c18Case struct {
 	Prio       uint16     `json:"prio"`
 	Text       string     `json:"text,omitempty"` // informational: the rendered parameter list
 	IsSoup     bool       `json:"is_soup,omitempty"`
-	Soup       string     `json:"soup,omitempty"` // token-soup phase: the raw parameter text
+	Soup       string     `json:"soup,omitempty"`  // token-soup phase: the raw parameter text
 	Batch      []c18Case  `json:"batch,omitempty"` // sequence phase: lists parsed one after the other, emitted afterwards
 }
 
